@@ -268,6 +268,8 @@ def same_items(e: Engine, a, b) -> bool:
     ai, bi = (a if isinstance(a, list) else text_items(a) if is_text(a) else _items_of(a)), (b if isinstance(b, list) else text_items(b) if is_text(b) else _items_of(b))
     if len(ai) != len(bi):
         return False
+    if len(ai) > 64 and all(type(x) is int for x in ai) and all(type(y) is int for y in bi):
+        return ai == bi  # fully concrete (large bodies): plain comparison
     d = []
     for x, y in zip(ai, bi):
         if _is_slice(x) or _is_slice(y) or isinstance(x, tuple) or isinstance(y, tuple):
